@@ -70,7 +70,11 @@ def _unwrap_try(r):
                 resid = lambda a: bool(re.match(r'^<[^()]*FromResidual<[^()]*>::from_residual\(', a)) or a == 'Option::None' or a.startswith('Result::Err(')
                 if len(oks) == 1 and rest and all(resid(a) for a in rest) and r.startswith('@Continue.0', e + 1):
                     v = oks[0][oks[0].index('(') + 1:-1]
-                    r = r[:i] + v + r[e + 1 + len('@Continue.0'):]
+                    head = r[:i]
+                    while v.startswith('!') and head.endswith('!'):
+                        # a negated value substituted under a negation (`!helper()?` with the helper returning `Ok(!p)`): `!!p` is p
+                        v, head = v[1:], head[:-1]
+                    r = head + v + r[e + 1 + len('@Continue.0'):]
                     break
                 live = [a for a in alts if not resid(a)]
                 if len(live) == 1 and len(live) < len(alts):
